@@ -325,6 +325,11 @@ func sliceCleanAtUse(p *Program, accs []*ssa.FieldAddr) (bool, string) {
 // stores v[i] in a block that dominates every latch, and every element read of v is dominated by the
 // loop's normal exit.
 func elementsAssignedBeforeRead(fn *ssa.Function, v *ssa.Slice, lenArg ssa.Value, sameField func(a, b ssa.Value) bool) bool {
+	// the re-extension written straight back into the field it came from, followed at once by a loop over
+	// the field that assigns every element (`x.f = x.f[:n]; for i := range x.f { x.f[i] = 0 }`)
+	if st := onlyStoredBack(v); st != nil {
+		return fieldAssignedRightAfter(fn, st)
+	}
 	// v must not escape: only indexed, ranged over, measured
 	var stores []*ssa.Store
 	var reads []ssa.Instruction
@@ -448,6 +453,91 @@ func elementsAssignedBeforeRead(fn *ssa.Function, v *ssa.Slice, lenArg ssa.Value
 		if okReads {
 			return true
 		}
+	}
+	return false
+}
+
+// onlyStoredBack: the only use of the reslice v is a store into the very field it was loaded from.
+func onlyStoredBack(v *ssa.Slice) *ssa.Store {
+	s1, f1, b1, ok := loadedField(v.X)
+	if !ok {
+		return nil
+	}
+	var st *ssa.Store
+	for _, r := range *v.Referrers() {
+		switch x := r.(type) {
+		case *ssa.DebugRef:
+		case *ssa.Store:
+			s2, f2, b2, ok := fieldOf(x.Addr)
+			if !ok || x.Val != ssa.Value(v) || s1 != s2 || f1 != f2 || root(b1) != root(b2) || st != nil {
+				return nil
+			}
+			st = x
+		default:
+			return nil
+		}
+	}
+	return st
+}
+
+// fieldAssignedRightAfter: control goes from the store straight (unconditional jumps only) into a loop
+// `for i := range <the field>` whose body assigns element [i] of the field on every iteration.
+func fieldAssignedRightAfter(fn *ssa.Function, st *ssa.Store) bool {
+	sn, fld, base, _ := fieldOf(st.Addr)
+	isField := func(v ssa.Value) bool {
+		s2, f2, b2, ok := loadedField(v)
+		return ok && s2 == sn && f2 == fld && root(b2) == root(base)
+	}
+	// nothing but loads / len between the store and the loop header
+	b := st.Block()
+	for i := 0; i < 3 && len(b.Succs) == 1; i++ {
+		b = b.Succs[0]
+		var loop *natLoop
+		for _, l := range naturalLoops(fn) {
+			if l.header == b {
+				loop = l
+			}
+		}
+		if loop == nil {
+			continue
+		}
+		// the loop is bounded by len(field) and stores field[idx]
+		iff, ok := b.Instrs[len(b.Instrs)-1].(*ssa.If)
+		if !ok {
+			return false
+		}
+		bo, ok := iff.Cond.(*ssa.BinOp)
+		if !ok || bo.Op != token.LSS {
+			return false
+		}
+		la := lenArgOf(bo.Y)
+		if la == nil || !isField(la) {
+			return false
+		}
+		idx := bo.X
+		found := false
+		for blk := range loop.blocks {
+			for _, in := range blk.Instrs {
+				est, ok := in.(*ssa.Store)
+				if !ok {
+					continue
+				}
+				ia, ok := est.Addr.(*ssa.IndexAddr)
+				if !ok || ia.Index != idx || !isField(ia.X) {
+					continue
+				}
+				dom := true
+				for _, pr := range b.Preds {
+					if b.Dominates(pr) && !(blk == pr || blk.Dominates(pr)) {
+						dom = false
+					}
+				}
+				if dom {
+					found = true
+				}
+			}
+		}
+		return found
 	}
 	return false
 }
